@@ -22,7 +22,7 @@ P = {
          "Per-row seeding (seeds drawn from the bandit generator, one generator per row) is mirrored by the oracle; euclidean boundary checks depend on a calibration guard (cdist == correctly rounded sqrt) evaluated at start-up."),
  "C04": ("exploration", "deterministic simulation of interference schedules: other bandits constructed/trained/queried between any two steps; twins in lock-step and skewed; further interpreter processes with other hash seeds",
          "Output sequences of a scripted bandit are compared alone vs. with an interference script (other seeds, default-constructed and shared policy tuples, especially between construction and first fit), vs. twins driven in lock-step/skewed order, vs. executions in two other interpreter processes (PYTHONHASHSEED=1 and random), with data that makes the trees' random_state observable.",
-         "Assumes single-threaded numerical kernels as the property states. The other interpreters are long-lived helper processes; each request resets mabwiser's process-global defaults so a replay in a fresh process sees the same thing."),
+         "Assumes single-threaded numerical kernels as the property states. The other interpreters are long-lived helper processes; each request resets mabwiser's process-global defaults so a replay in a fresh process sees the same thing. A violation that recurs only in some re-executions of the same case is reported as [intermittent] (the system under test is then not a function of its inputs)."),
  "C05": ("exploration", "seeded scheduler over thread interleavings / process batching / partitions; replica-vs-primary refinement; per-row decomposition; exact-cover monitor",
          "A replica with drawn n_jobs/backend/cores executes every operation under a per-operation seeded scheduler (thread completion order and LINE/INSTRUCTION-level interleavings of the shared-memory fit/insert tasks, process batching onto pickled copies, arbitrary contiguous partitions) and must equal the n_jobs=1 primary on every output and on the learned model; plus per-row decomposition on fresh copies and an exact-cover monitor on the real partition function (incl. a complete sweep n<=64 x n_jobs in -3..66).",
          "Known finding KF-C05-treebandit-shared-rng covers differing VALUES for TreeBandit+TS/EG(eps>0) only; structure and models stay checked."),
@@ -33,7 +33,7 @@ P = {
          "Every later fit of a generated history (after partial_fit, arm changes, warm_start, queries; new data smaller/larger/with another column count) is mirrored on a freshly constructed bandit that gets the primary's stream position; parameter views, cold_arms, observations and the whole continuation must coincide.",
          "Parameter views deliberately exclude unobservable internals (template policy statistics inside Radius/KNearest/LSH/TreeBandit, empty hash buckets)."),
  "C08": ("exploration", "arm-set/shape invariants checked after EVERY step of seeded histories, queries under seeded schedules/partitions, restarts injected",
-         "A trivial model of the arm list is maintained through add/remove/fit/partial_fit/warm_start histories (arm changes before the first fit included, all label types, all n_jobs/backends); after every step the bandit is queried with m=1, m>1 and without contexts: predict in arms, expectation keys == arms in order, result length == m.",
+         "A trivial model of the arm list is maintained through add/remove/fit/partial_fit/warm_start histories (arm changes before the first fit included, all label types, all n_jobs/backends); a sibling bandit built from the SAME arms list object changes its own arms at drawn points; after every step the bandit is queried with m=1, m>1 and without contexts: predict in arms, expectation keys == arms in order, result length == m.",
          "no_nhood_prob_of_arm is None whenever arm changes are generated (a fixed-length probability list against a changed arm count is a caller inconsistency)."),
  "C09": ("exploration", "two deep copies per query point under the same schedule seed; first-arg-max relation; tie-prone data regimes",
          "At every query point of a generated history two deep copies answer predict and predict_expectations under the same per-operation schedule seed; per row predict must be the first arm attaining the maximum (NaN rows: predict in arms). TreeBandit+EpsilonGreedy(eps>0) excluded as stated.",
@@ -51,7 +51,7 @@ P = {
          "Every warm_start of a generated history is delivered twice (optionally across a restart) and compared with another quantile on a deep copy: trained/warm arms untouched, each newly warm arm equals exactly a trained arm at minimal cosine distance within the quantile threshold, warm set monotone in the quantile, repetition changes nothing, cold_arms follows a trivial model after every operation, raising calls change nothing.",
          "Per-arm state excludes soft-max shares (they legitimately move when another arm's mean appears)."),
  "C14": ("exploration", "replica without binarizer fed pre-converted rewards (exactly-once check); non-idempotent binarizers; known-finding discriminator",
-         "ThompsonSampling with a binarizer, alone and under every neighbourhood policy, over histories with fit/partial_fit/queries/add_arm(arm, new_binarizer): a replica without binarizer fed binarizer(decision,reward) must return exactly the same from the same seed. Binarizers are not idempotent on {0,1}, so double application is visible.",
+         "ThompsonSampling with a binarizer, alone and under every neighbourhood policy, over histories with fit/partial_fit/queries/add_arm(arm, new_binarizer), including bandits built WITHOUT a binarizer that get their first one from add_arm: a replica without binarizer fed binarizer(decision,reward) must return exactly the same from the same seed. Binarizers are not idempotent on {0,1}, so double application is visible.",
          "KF-C14-treebandit-leaf-binarized-twice is attributed only if converting the replica's stored leaf rewards a second time reproduces the observation exactly."),
  "C15": ("exploration", "Simulator world: several bandits in one Simulator, chunk-budget knob (F-KNOB), seeded schedule/partitions inside mabwiser.simulator; reference driver over the public API",
          "One Simulator with 1-4 bandits (different metrics together, different n_jobs), offline/online, drawn batch size, is_quick, chunk budget 1..|test| through a seam, all workers under one seeded schedule: reported predictions (and expectations of deterministic policies) must equal deep copies of the original bandits driven through MAB.fit/predict/predict_expectations/partial_fit with the independently computed split; randomised policies may match either protocol variant.",
@@ -59,7 +59,7 @@ P = {
  "C16": ("exploration", "conservation / exactly-once laws recomputed independently on the simulated Simulator runs (chunk-budget knob, seeded schedules and partitions)",
          "On the same simulated runs as C15: test indices and complement partition the rows (last rows when ordered, equal to the documented split), one prediction per test row, per-arm statistics equal direct recomputation and train+test=total, the default evaluation recomputed independently (incl. neighbourhood statistics) equals the reported one per batch and in total, counts sum to |test|, min<=mean<=max.",
          "Apart from the chunk-budget knob and worker partitions/schedules this property is a function of the input: most decisive variation is generated input; claimed as exploration, no more."),
- "C17": ("fault_enumeration", "enumeration of (47 policy combinations) x (catalogue of invalid calls and training shape errors) x (5 history positions); replica that never saw the fault; continuation equality without re-synchronisation",
+ "C17": ("fault_enumeration", "enumeration of (47 policy combinations) x (83-entry catalogue of invalid calls and training shape errors) x (5 history positions); replica that never saw the fault; continuation equality without re-synchronisation",
          "Quick covers the full cross product once: for every policy-combination class, every catalogue entry (invalid arguments of fit/partial_fit/predict/predict_expectations/add_arm/remove_arm/warm_start/__init__, shape errors inside training) and every history-position class, the call is made on the primary; if it raises, arm list, parameter view and ALL random-stream positions must equal a deep copy that never saw it and a continuation (always a further partial_fit and queries) must return exactly the same; thorough adds random histories around the fault.",
          "A catalogue call that does not raise makes no claim (counted as 'not rejected'). Shape errors surfacing from prediction are not in the catalogue (the property lists training shape errors only)."),
  "C18": ("exploration", "byte-level snapshots of all caller-owned objects around every call; caller mutations of the arms list and reuse of policy tuples injected; replica fed other container types",
